@@ -244,6 +244,25 @@ def battery(quick=True):
         for closed in ("left", "right"):
             attempt(f"auto+crosscorrelate[redshifts on the bin edges, closed={closed}]", lambda closed=closed: on_edges(closed))
 
+        # given centres with the objects of a patch sitting off-centre (a clump at the border): the stored radius must be measured
+        # around the stored (given) centre, otherwise the neighbouring patch is pruned although it holds pairs
+        def off_centre():
+            cen = np.array([[10.0, 0.0], [12.0, 0.0], [14.0, 0.0]]) * deg
+            centres = yaw.AngularCoordinates(cen)
+
+            def clumped(n):
+                a = points(n, 10.85 * deg, 0.0, 0.12 * deg)            # patch 0: clump near the border to patch 1
+                b = points(n, 11.25 * deg, 0.0, 0.12 * deg)            # patch 1: clump near the border to patch 0
+                c = points(n, 14.0 * deg, 0.0, 0.5 * deg)
+                return pd.concat([a, b, c], ignore_index=True)
+            data, rand = clumped(30), clumped(40)
+            kw = dict(ra_name="ra", dec_name="dec", degrees=False, max_workers=1, weight_name="w", redshift_name="z", patch_centers=centres)
+            d = yaw.Catalog.from_dataframe(target(), data, **kw)
+            r = yaw.Catalog.from_dataframe(target(), rand, **kw)
+            cfg = yaw.Configuration.create(rmin=5.0, rmax=40.0, unit="arcmin", zmin=0.05, zmax=1.2, num_bins=2)
+            return run_auto(cfg, d, r)
+        attempt("autocorrelate[given centres, objects clumped off-centre at the patch border]", off_centre)
+
         # single-object patches and a patch without objects in any bin
         def singles():
             L = layouts["equator"]
